@@ -13,6 +13,7 @@ import (
 	"go.dedis.ch/kyber/v4"
 	"go.dedis.ch/kyber/v4/group/edwards25519"
 	"go.dedis.ch/kyber/v4/group/edwards25519vartime"
+	"go.dedis.ch/kyber/v4/group/p256"
 	"go.dedis.ch/kyber/v4/pairing"
 	"go.dedis.ch/kyber/v4/pairing/bn254"
 	"go.dedis.ch/kyber/v4/pairing/bn256"
@@ -96,6 +97,24 @@ func runProgram(t *core.Tape, info *core.RunInfo) *core.Violation {
 			r.g, r.base = su.GT(), su.Pair(su.G1().Point().Base(), su.G2().Point().Base())
 		}
 		reps = []*replica{r}
+	} else if t.Bool("prog.model", 200) {
+		// one implementation next to a math/big reference model of its curve (C18: "P-256 and BN G1
+		// agree with a reference Weierstrass model")
+		var g kyber.Group
+		switch t.Intn("prog.model", 3) {
+		case 0:
+			family, g = "p256", p256.NewBlakeSHA256P256()
+		case 1:
+			family, g = "bn256-g1", bn256.NewSuite().G1()
+		default:
+			family, g = "bn254-g1", bn254.NewSuite().G1()
+		}
+		impl := &replica{name: family, g: g, base: g.Point().Base()}
+		reps = []*replica{impl}
+		if m := newModel(family, mb(impl.base)); m != nil {
+			reps = append(reps, &replica{name: "math/big model", g: m, base: m.Point().Base()})
+		}
+		family += "+model"
 	} else if t.Bool("prog.family", 400) {
 		family = "ed25519"
 		ct := edwards25519.NewBlakeSHA256Ed25519()
@@ -108,6 +127,11 @@ func runProgram(t *core.Tape, info *core.RunInfo) *core.Violation {
 		}
 		for _, r := range reps {
 			r.base = r.point().Base()
+		}
+		// and the arbitrary-precision model of the curve (C18: "identical to an arbitrary-precision
+		// reference model of the curve")
+		if m := newModel("ed25519", mb(reps[0].base)); m != nil {
+			reps = append(reps, &replica{name: "math/big model", g: m, base: m.Point().Base()})
 		}
 	} else {
 		which := t.Intn("prog.family", 3)
